@@ -128,8 +128,89 @@ def cat_case(n):
                 bounds={"sections": n, "values": "symbolic finite reals"}, expect_ok=False, check_side=False)
 
 
+# ---------------------------------------------------------------- loading: Network::from_file with the file system as a nondeterministic environment
+OLD_LINK = "link_old::Link"
+
+
+def old_link(d):
+    """the same link in the legacy file layout (speed sets as a list keyed by train type)"""
+    o = {k: v for k, v in d.items() if k not in ("speed_sets", "speed_set")}
+    ss = d.get("speed_set")
+    o["speed_sets"] = [dict(ss, train_type="Freight")] if ss else []
+    return o
+
+
+def from_file_case(kind, j, field):
+    """<Network as SerdeAPI>::from_file on a path whose file holds a legacy-layout network with one symbolic index field.
+    Environment stubs: Path::extension / OsStr::to_str / File::open succeed; from_reader (current layout) fails on the legacy file;
+    NetworkOld::from_file returns the legacy network the file holds. Everything after that is the real code: From<NetworkOld>,
+    From<LinkOld>, Network::init -> validate."""
+    from values import Enum, Ptr
+    net = base_network(kind)
+    N = len(net)
+    net[j][field] = Sym("v", "int")
+    old = [old_link(l) for l in net]
+
+    def assume(S):
+        return [("the mutated index is any u32", z3.And(S["v"] >= 0, S["v"] < 2**32))]
+
+    def fields(c):
+        out = []
+        for k in range(N):
+            out.append({f: (c.S["v"] if (k == j and f == field) else net[k][f]) for f in FIELDS})
+        return out
+
+    some = lambda v: Enum("Option", 1, [v])
+    ok = lambda v: Enum("Result", 0, [v])
+    err = lambda: Enum("Result", 1, [Opaque("anyhow::Error")])
+
+    def stub_from_reader(eng, st, args):
+        return [(st, err())]  # a legacy-layout file does not parse as the current layout
+
+    def stub_old_from_file(eng, st, args):
+        links = eng.deref_all(st, args[0])  # the path stands for the file: it carries the legacy links the file holds
+        return [(st, ok(Struct("NetworkOld", [links])))]
+
+    stubs = {
+        "re:Path::extension": lambda eng, st, args: [(st, some(Opaque("osstr")))],
+        "re:OsStr::to_str": lambda eng, st, args: [(st, some(Opaque("str:yaml")))],
+        "re:File::open": lambda eng, st, args: [(st, ok(Opaque("File")))],
+        "re:<link_impl::Network as traits::SerdeAPI>::from_reader|<Network as SerdeAPI>::from_reader|Network as .*SerdeAPI>::from_reader": stub_from_reader,
+        "re:NetworkOld as .*SerdeAPI>::from_file": stub_old_from_file,
+    }
+
+    def same_network(c):
+        r = c.retval()
+        links = r.fields[0] if hasattr(r, "fields") else r
+        conds = []
+        exp = fields(c)
+        for k in range(N):
+            for f in FIELDS:
+                got = links.elems[k].fields[c.h.mir.field_index("Link", f, len(links.elems[k].fields))] if hasattr(links, "elems") else links[k][f]
+                got = got.fields[0] if hasattr(got, "fields") else got
+                conds.append(XEQ(got, exp[k][f]))
+        return AND(*conds)
+
+    claims = [
+        Claim("a legacy-layout file is accepted only if the documented cross-reference rules hold", lambda c: ref_valid(fields(c), N), when="ok", role="load_accepts_only_valid"),
+        Claim("a legacy-layout file is rejected only if a documented rule is broken", lambda c: NOT(ref_valid(fields(c), N)), when="err", role="load_rejects_only_invalid"),
+        Claim("the loaded network carries the index fields of the file", same_network, when="ok", role="load_same_network"),
+        Claim("a bad reference in a file is an error value, never a crash", None, when="nopanic", role="load_no_panic"),
+    ]
+    c = Case(f"network_from_file_legacy_{kind}_link{j}_{field}", "C16", None, None,
+             [Call("<link_impl::Network as SerdeAPI>::from_file", [(f"&Vec<{OLD_LINK}>", old)])], assume, claims,
+             bounds={"network": kind, "links": N, "file layout": "legacy (NetworkOld)", "mutated field": f"links[{j}].{field}", "value": "symbolic u32",
+                     "environment": "file system and deserialisers stubbed (open succeeds, current-layout parse fails, legacy parse yields the file's network)"},
+             expect_ok=False, max_paths=20000, loop_bound=80, check_side=False, free_fn=True, stubs=stubs)
+    c.no_tv = True  # the interpreter cannot run the real file I/O; counterexamples are replayed natively through a temporary file
+    return c
+
+
 def m_cases(tier):
     cs = []
+    lf = [("bidir2", 1, "idx_flip"), ("bidir2", 2, "idx_prev"), ("switch", 1, "idx_next_alt")] if tier == "quick" else \
+        [(k, j, f) for k in ("bidir2", "switch") for j in (1, 2) for f in FIELDS]
+    cs += [from_file_case(k, j, f) for (k, j, f) in lf]
     kinds = {"bidir2": (1, 2, 3, 4), "switch": (1, 2, 3)} if tier == "quick" else {"bidir2": (1, 2, 3, 4), "switch": (1, 2, 3), "chain3": (1, 2, 3)}
     for kind, js in kinds.items():
         for j in (js if tier != "quick" else js[:2]):
